@@ -200,17 +200,14 @@ func (d *Decoder) readTypedMap() (interface{}, error) {
 			return nil, err
 		}
 
-		//nil map
-		if key == nil {
-			break
-		}
-
+		// a null key is a key like any other (the end of the map is the 'Z' reported as io.EOF above)
 		value, err := d.ReadData()
 		if err != nil {
 			return nil, err
 		}
 		if mType.Kind() == reflect.Map {
-			mValue.SetMapIndex(EnsureRawValue(key), EnsureRawValue(value))
+			// keys and values arrive in their wire types (int32, int64, float64, pointers to structs)
+			mValue.SetMapIndex(convertValue(mType.Key(), EnsureRawValue(key)), convertValue(mType.Elem(), EnsureRawValue(value)))
 		} else {
 			fieldName, ok := key.(string)
 			if !ok {
@@ -243,11 +240,7 @@ func (d *Decoder) readUntypedMap() (interface{}, error) {
 			return nil, err
 		}
 
-		// nil map
-		if key == nil {
-			break
-		}
-
+		// a null key is a key like any other (the end of the map is the 'Z' reported as io.EOF above)
 		value, err := EnsureInterface(d.ReadData())
 		if err != nil {
 			return nil, err
@@ -305,15 +298,13 @@ func (d *Decoder) readMap(dest reflect.Value) error {
 			}
 		}
 
-		if key == nil {
-			break
-		}
-
+		// a null key is a key like any other (the end of the map is the 'Z' reported as io.EOF above)
 		vl, err := d.ReadData()
 		if err != nil {
 			return err
 		}
-		mPtrValue.Elem().SetMapIndex(EnsureRawValue(key), EnsureRawValue(vl))
+		// keys and values arrive in their wire types (int32, int64, float64, pointers to structs)
+		mPtrValue.Elem().SetMapIndex(convertValue(mapTyp.Key(), EnsureRawValue(key)), convertValue(mapTyp.Elem(), EnsureRawValue(vl)))
 	}
 	SetValue(dest, mPtrValue)
 	return nil
